@@ -55,7 +55,10 @@ def main():
             env = dict(os.environ, VERIF_REPO=repo, VERIF_SEED=os.environ.get("VERIF_SEED", "1"))
             props = m["property"] if isinstance(m["property"], list) else [m["property"]]
             for prop in props:
-                r = sh("cd %s && python3 tools/verif.py check %s --tier %s" % (verif, prop, m.get("tier", "quick")), env=env)
+                if prop.startswith("extra:"):
+                    r = sh("cd %s && python3 tools/verif.py extra %s --tier %s" % (verif, prop[6:], m.get("tier", "quick")), env=env)
+                else:
+                    r = sh("cd %s && python3 tools/verif.py check %s --tier %s" % (verif, prop, m.get("tier", "quick")), env=env)
                 viol = [l for l in r.stdout.splitlines() if l.startswith("VIOLATION")]
                 status = "VIOLATION" if viol else ("BROKEN" if r.returncode == 2 else "quiet")
                 expect = m.get("expect", "violation")
